@@ -17,6 +17,7 @@ CONSTANTS
   StakingDelay = 2
   VotingDelay = 2
   MaxHeight = 5
+  MaxDiscards = 0
   MaxOps = 3
 VIEW viewAbs
 ACTION_CONSTRAINT GenLog
